@@ -44,6 +44,8 @@ def gen_body(draw, avail, o, name):
     if draw(st.integers(0, 99)) < o.get("p_failflag", 20):
         pos = draw(st.integers(0, len(body)))
         body.insert(pos, ["failflag", name.replace("/", "_"), draw(st.sampled_from([1, 2, 7, 99]))])
+    if draw(st.integers(0, 99)) < o.get("p_usermod", 0):
+        body.append(["usermod"])
     body.append(["out", draw(st.sampled_from(["stdout", "file"]))])
     if csum:
         if draw(st.integers(0, 99)) < o.get("p_stampif", 0):
@@ -173,7 +175,7 @@ def histories(draw, o=None):
     kinds = []
     for k, dflt in (("cmd", 40), ("edit", 16), ("touch", 4), ("rmtarget", 8), ("setdo", 8), ("adddo", 4),
                     ("rmdo", 3), ("mkpath", 5), ("rmpath", 3), ("ext", 4), ("failflag", 6), ("query", 0),
-                    ("mwrite", 0), ("mreplace", 0), ("mremove", 0), ("redo", 8), ("stampflag", 0), ("crash", 0)):
+                    ("mwrite", 0), ("mreplace", 0), ("mremove", 0), ("redo", 8), ("stampflag", 0), ("crash", 0), ("usermodflag", 0)):
         kinds += [k] * w.get(k, dflt)
     ops = []
     # locality: with probability p_focus an operation that names a target names one of 1-2 "focus" targets, so that
@@ -255,6 +257,8 @@ def histories(draw, o=None):
             names = sorted({s[1] for spec in dofiles.values() for s in spec["body"] if s[0] == "failflag"})
             if names:
                 ops.append(["failflag", _pick(draw, names), draw(st.integers(0, 1))])
+        elif k == "usermodflag":
+            ops.append(["usermodflag", pick_target()])
         elif k == "crash":
             ts = [pick_target()]
             cwd = _pick(draw, dirs) if draw(st.integers(0, 99)) < 30 else ""
